@@ -40,7 +40,7 @@ func zzBaseWorld(withC, nsObjs bool) *zzGen {
 		g.addPod("ns2", "c", map[string]string{"app": "a"}, nil)
 	}
 	if nsObjs {
-		g.addNs("ns1", map[string]string{"env": "prod"})
+		g.addNs("ns1", map[string]string{"env": "prod", "tier": "restricted"})
 		if withC {
 			g.addNs("ns2", map[string]string{"env": "dev"})
 		}
